@@ -940,7 +940,7 @@ func (c *Config) CanonBound(p *big.Int) *big.Int {
 //	bits   all outputs 0/1 and sum b_i 2^i = input:   one low bit flipped, compensated by a non-boolean top digit (field inverse of
 //	       2^(n-1));  the bits of input + r (when they fit);  everything in digit 0
 //	split  two outputs and input = lo + 2^k hi (either order, k <= 128):  lo with its lowest bit flipped, hi solved in the field
-//	other  every output + 1, one at a time (decided by the whole run, not locally)
+//	other  every output + p (Goldilocks-valued ones) and + 1, one at a time: a hinted value must be pinned by the gadget that asks for it
 type Alternative struct {
 	Family string
 	Out    []*big.Int
@@ -1058,7 +1058,7 @@ func ForeignAlternatives(c *HintCall) []Alternative {
 				o[j] = new(big.Int).Set(h[j])
 			}
 			o[i] = new(big.Int).Add(o[i], P)
-			alts = append(alts, Alternative{Family: fmt.Sprintf("other/output-%d-plus-p", i), Out: o, Global: true})
+			alts = append(alts, Alternative{Family: fmt.Sprintf("other/output-%d-plus-p", i), Out: o})
 		}
 	}
 	for i := range h {
@@ -1067,7 +1067,7 @@ func ForeignAlternatives(c *HintCall) []Alternative {
 			o[j] = new(big.Int).Set(h[j])
 		}
 		o[i] = new(big.Int).Mod(new(big.Int).Add(o[i], one), R)
-		alts = append(alts, Alternative{Family: fmt.Sprintf("other/output-%d-plus-1", i), Out: o, Global: true})
+		alts = append(alts, Alternative{Family: fmt.Sprintf("other/output-%d-plus-1", i), Out: o})
 	}
 	return alts
 }
